@@ -132,7 +132,7 @@ Section Dash.
   Definition dash_op (initial : dstate) (a : dash_acc) (o : pathop) : result dash_acc :=
     match o with
     | MoveTo p =>
-        let out := flush_initial (da_init a) (MoveTo p :: da_out a) in
+        let out := MoveTo p :: flush_initial (da_init a) (da_out a) in
         Ok (mk_da (Some p) (Some p) true true [] initial out)
     | LineTo p =>
         match da_cur a with
